@@ -45,7 +45,11 @@ def run_case(case, prefix):
         w.connect()
         w.dispatchers[0].fire_connected()
         while True:
+            had = len(w.server_out[0]) > 0
             sc.wait_until(lambda: len(w.server_out[0]) > 0, "server bytes")
+            if had:
+                # back in select() between two socket events: the other threads ran meanwhile for free
+                sc.env_point("next socket event")
             w.deliver(0, len(w.server_out[0]))
 
     sent = {}
@@ -203,26 +207,42 @@ def cases_for(tier):
     return cases
 
 
+def _small(c):
+    return sum(c.get("apps", [])) <= 2 and len(c.get("apps", [])) <= 2
+
+
+# thorough: cases whose bound-2 space was measured to be small enough to be explored completely
+CORE2 = [
+    {"apps": [1, 1]},
+    {"apps": [2, 2]},
+    {"apps": [1, 1, 1]},
+    {"apps": [2], "direct_ping": 1},
+    {"apps": [1], "real_ping": True},
+    {"apps": [2], "server_pings": 1},
+    {"apps": [1], "direct_ping": 1, "server_pings": 1},
+    {"apps": [2, 2], "variant": "XX"},
+    {"apps": [2, 1, 1]},
+    {"apps": [1, 1, 1, 1]},
+]
+
+
 def run(ctx):
     cases = shuffled(cases_for(ctx.tier), ctx.seed, "c11")
-    bound = 1 if ctx.quick else 2
-    free_bound = 2
-    cap = 60000 if ctx.quick else 1500000
-    st = dfs.explore(ctx, MOD, "run_case", cases, bound, cap=cap, chunksize=8, free_bound=free_bound)
-    ctx.note("preemption bound %d, free-deviation bound %d: executions=%d capped=%s" % (bound, free_bound, st.executions, st.capped))
-    if not ctx.quick and not ctx.violations:
-        # line-granularity scheduling points (layers/__init__.py, noise/layer.py, segments layer) for the small cases
+    if ctx.quick:
+        phases = [{"name": "bound1", "cases": cases, "bound": 1, "free_bound": 2, "cap": 60000}]
+    else:
         lc = []
         for c in cases:
-            if sum(c.get("apps", [])) <= 2 and len(c.get("apps", [])) <= 2:
+            if _small(c):
                 d = dict(c)
                 d["lines"] = True
                 lc.append(d)
-        stl = dfs.explore(ctx, MOD, "run_case", lc, 1, cap=cap, chunksize=8, free_bound=1)
-        ctx.note("line-level points: cases=%d executions=%d capped=%s" % (len(lc), stl.executions, stl.capped))
-        st.executions += stl.executions
-        st.points += stl.points
-        st.capped = st.capped or stl.capped
+        phases = [
+            {"name": "bound1", "cases": cases, "bound": 1, "free_bound": 2},
+            {"name": "lines-bound1", "cases": lc, "bound": 1, "free_bound": 1},
+            {"name": "bound2-core", "cases": [c for c in cases if c in CORE2], "bound": 2, "free_bound": 1},
+        ]
+    st, phase_summ = dfs.explore_phases(ctx, MOD, "run_case", phases)
     p1 = run_case(cases[0], (0, {}))
     p2 = run_case(cases[0], (0, {}))
     if p1 != p2:
@@ -235,14 +255,14 @@ def run(ctx):
         "traces_validated_against_impl": st.executions,
         "executions": st.executions,
         "cases": len(cases),
-        "preemption_bound": bound,
-        "free_deviation_bound": free_bound,
+        "phases": phase_summ,
+        "preemption_bound": max(p["bound"] for p in phases),
+        "preemption_bound_completed_all_cases": 1 if not st.capped else None,
         "by_preemptions": {str(k): n for k, n in sorted(st.by_preemptions.items())},
-        "executions_per_case": {str(cases[k]): n for k, n in st.per_case.items()},
+        "executions_per_case": {str(k): n for k, n in st.per_case.items()},
         "max_scheduling_points_per_execution": st.max_points,
         "distinct_outcomes": len(st.observations),
         "exhaustive": not st.capped,
-        "cap": cap,
         "explanation": "states/transitions = scheduling points visited by the stateless search; every execution runs the real layers",
     })
     ctx.assume("scheduling points: CLock/CQueue operations, thread spawn/exit, PY_START of functions in yowsup/layers/** and "
